@@ -44,10 +44,62 @@ class Harness:
     def oracle(self, cx, p, x, obs):
         return []
 
+    generic_invariants = True
+
+    def invariants(self, cx, p, x, obs):
+        """Cross-cutting obligations on every histogram snapshot found in the observables (dicts carrying 'geom', 'bins',
+        'edges', 'freq'): the two views of the bin geometry (edge pairs and numpy-style edges, cached separately by the binning
+        objects) describe the same bins, and the content array has one entry per bin."""
+        if not self.generic_invariants or not isinstance(obs, dict):
+            return
+        yield from _walk_snapshots(cx, obs, "")
+
     def witness_hints(self, cx, p, x):
         """Optional: lists of z3 constraints tried (in order) when a concrete witness / counterexample is picked,
         to steer the solver to inputs on which exact-real and binary64 arithmetic coincide (e.g. dyadic widths)."""
         return []
+
+
+def _dims(a):
+    d = []
+    while isinstance(a, list):
+        d.append(len(a))
+        if not a:
+            break
+        a = a[0]
+    return d
+
+
+def _walk_snapshots(cx, node, path, depth=0):
+    import z3
+
+    if depth > 6:
+        return
+    if isinstance(node, dict):
+        if node.get("geom") in ("1d", "nd") and all(k in node for k in ("bins", "edges", "freq")) and isinstance(node["bins"], list):
+            one = node["geom"] == "1d"
+            bins = [node["bins"]] if one else node["bins"]
+            edges = [node["edges"]] if one else node["edges"]
+            fshape = _dims(node["freq"]) if isinstance(node["freq"], list) else None
+            if isinstance(edges, list) and len(edges) == len(bins) and fshape is not None:
+                for k, (b, e) in enumerate(zip(bins, edges)):
+                    if not isinstance(b, list):
+                        continue
+                    n = len(b)
+                    tag = f"{path or 'obs'}:axis{k}"
+                    if len(fshape) == len(bins) or (n == 0 and len(fshape) >= 1):
+                        yield f"snapshot_bins_match_contents[{tag}]", (fshape[k] if k < len(fshape) else 0) == n
+                    if isinstance(e, Raised) or not isinstance(e, list) or n == 0:
+                        continue
+                    yield f"snapshot_edge_count[{tag}]", len(e) == n + 1
+                    if len(e) == n + 1 and all(isinstance(r, list) and len(r) == 2 for r in b):
+                        yield f"snapshot_edges_match_bins[{tag}]", z3.And([cx.t(e[0]) == cx.t(b[0][0])] + [cx.t(e[j + 1]) == cx.t(b[j][1]) for j in range(n)])
+        for k, v in node.items():
+            if isinstance(v, (dict, list)) and not str(k).startswith("_"):
+                yield from _walk_snapshots(cx, v, f"{path}.{k}" if path else str(k), depth + 1)
+    elif isinstance(node, list) and node and isinstance(node[0], dict):
+        for i, v in enumerate(node):
+            yield from _walk_snapshots(cx, v, f"{path}[{i}]", depth + 1)
 
 
 def exc_name(e):
